@@ -1,11 +1,13 @@
 BASELINE_OFF = ("cd /repo && GOFLAGS=-mod=mod go test -json -vet=off -count=1 -timeout 25m ./...")
-READY_FAMILIES = ["fam_coa", "fam_dhcp4", "fam_pppoesrv", "fam_antispoof", "fam_nat", "fam_pppfsm"]  # lib/fam_<x>.py modules reviewed and merged by the lead
+READY_FAMILIES = ["fam_coa", "fam_dhcp4", "fam_pppoesrv", "fam_antispoof", "fam_nat", "fam_pppfsm", "fam_qos"]  # lib/fam_<x>.py modules reviewed and merged by the lead
 HOOK_COMMITS = ["verif hooks: pkg/allocator epoch tick for DistributedAllocator (build tag verif)"]
 FIX_COMMITS = ["c1b5c0f", "71a23ea", "b7bf76b", "da38f0a", "c6de14e", "fccc5fe", "bde8047"]
 NOTES = ("Every check: bin/check <id> --tier quick|thorough [--replay file]. Exit 0 held (KNOWN-FINDING lines for listed findings), "
          "1 new violation (VIOLATION line), 2 infrastructure failure (never a verdict). Specifications under specs/, conformance harness under harness/ "
          "(Go test binaries built against /repo's working tree with -tags verif), driver under lib/. See DESIGN.md.")
 ENGINES = [
+    dict(name="tlc-apalache-trace", path="lib/fam_qos.py", serves_properties=["C19"],
+         kind_free_text="TLA+ reference spec model-checked by TLC; traces of the natively compiled C program validated against the spec's inequalities by Apalache (64-bit values)"),
     dict(name="tlc-table", path="lib/tablecheck.py", serves_properties=["C01", "C05", "C12"],
          kind_free_text="TLA+ contract spec model-checked by TLC; transition tables and traces extracted from the real Go objects are walked by a TLA+ monitor spec under TLC"),
 ]
